@@ -137,6 +137,38 @@ var props = map[string]*propCfg{
 		Technique:   "runtime oracle monitoring: exact rational reference (big.Rat nearest-float), grid-constructed inputs",
 		DesignRef:   "DESIGN.md §4 C15",
 	},
+	"C16": {
+		Rule: "Triples (a, b, c): a random (1..120 digits, exponents incl. both range ends, zeros, infinities), b related to a (equal; negated; last digit +-1; same value with a longer mantissa +-1 in a far lower place; exponent +-1; equal with trailing zeros moved into the exponent; unrelated), c related to b or random. Each value is built through a different route (raw words with extra low zero words, parser at a larger precision, arithmetic result, a receiver that held a 100..400-digit value before, plain) with random precision, mode and accuracy history. All nine Cmp results must equal the sign of the exact difference (class, then leading-digit exponent, then aligned coefficients), be antisymmetric, and the library's own answers must sort transitively; Sign, Signbit, IsZero, IsInf must agree; operands unchanged. Non-trivial = b related to a.",
+		Assumptions: []string{"values are constructed through public setters and verified by read-back before use"},
+		Floors:      []floor{{"pair/equal", 5000}, {"pair/last-digit", 5000}, {"pair/longer-mantissa", 5000}, {"pair/equal-trailing-zeros", 5000}, {"route/low-zero-words", 20000}, {"comparisons", 1000000}},
+		LevelText:   "Runtime monitoring of Cmp against the exact order on pairs constructed to be equal up to representation or to differ in the last place only.",
+		Technique:   "runtime oracle monitoring: exact order by big.Int comparison, antisymmetry/transitivity over recorded answers",
+		DesignRef:   "DESIGN.md §4 C16",
+	},
+	"C12": {
+		Rule: "Decimal literals (35%): generated from a digit string (1..6 000 digits, rounding-aimed or patterned, leading/trailing zeros, all zeros), a radix point anywhere, an exponent to both ends of the int32 range, rendered plainly and with '_' separators, through Parse(s,10), Parse(s,0), SetString, ParseDecimal, UnmarshalText and fmt.Sscan; receiver precision 0 (-> 34), 1..45 or digit count +-3, six modes, dirty receivers: value and accuracy against the exact literal value by both oracle models, reported base, resulting precision and mode. Binary literals (20%): 0b/0o/0x mantissas with optional fraction and optional p exponent, decimal mantissas with a p exponent: exact value m x 2^k; stored exactly when its decimal expansion fits the precision, otherwise within one unit of the correctly rounded value; detected base. Language (45%): token soup, mutated and truncated literals, literals with trailing garbage, x bases {0,2,8,10,16}: no entry point may panic; a failed call returns a nil *Decimal; an accepted one leaves a canonical value; acceptance and detected base must equal big.Float.Parse for literals whose exponent magnitude is <= 10^4 (beyond that math/big's binary exponent range differs). Every case is non-trivial.",
+		Assumptions: []string{"Scan (fmt) accepts a valid prefix by design: its acceptance is not compared with Parse's", "language comparison is limited to exponent magnitudes <= 10^4; range rejections beyond that are covered by the decimal-literal cases at both range ends"},
+		Floors:      []floor{{"decimal/", 60000}, {"binary/", 30000}, {"binary_exactly_representable", 5000}, {"language/accepted", 10000}, {"language/rejected", 20000}, {"language_compared_with_math_big", 40000}, {"entry_point_calls", 150000}},
+		LevelText:   "Runtime monitoring of the parser against exact literal values and against math/big's parser as a reference for the accepted language; grammar-aware fuzzing for totality.",
+		Technique:   "runtime oracle monitoring: exact literal reference + differential vs math/big Float.Parse; recover()-instrumented fuzzing",
+		DesignRef:   "DESIGN.md §4 C12",
+	},
+	"C13": {
+		Rule: "Differential (55%, no model): every finite float64 has a finite exact decimal expansion; x = that expansion as a Decimal in ToNearestEven. Text/Append(x, f, prec) must equal strconv.FormatFloat(v, f, prec, 64) for f in e E f g G and prec 0..45 (prec -1 only when strconv's shortest form is the exact expansion), and fmt.Sprintf(verb, x) must equal fmt.Sprintf(verb, v) for verbs e E f F g G v x every subset of the flags '+', ' ', '-', '0' x width 0..30 x precision 0..20 or absent, incl. +-0, +-Inf, values at the %g thresholds and 9.99->10.0 carries. Model (45%): arbitrary Decimals (1..200 digits, digit strings aimed at the requested rounding position incl. positions at or above the leading digit, six modes, zeros, infinities): Text(f, prec) for f in e E f g G and prec -1..40 must equal RoundToPlace(x, position, x.Mode()) laid out by a port of strconv's %e/%f/%g rules, itself cross-checked against strconv on every differential case; 'p' and 'b' layouts directly; String() = Text('g', 10). x unchanged. Non-trivial = finite values.",
+		Assumptions: []string{"excluded because they are not what the statement names: the '#' flag; '+'/' ' combined with %v (fmt turns them into plusV/spaceV for built-in floats, which a Formatter cannot observe); precision-less %g/%G/%v unless the float's shortest form is its exact expansion", "'f' is exercised at |exponent| <= 3 000"},
+		Floors:      []floor{{"strconv/", 50000}, {"fmt/", 50000}, {"model/f/position-at-or-above-leading-digit", 1500}, {"model/e/aimed-at-position", 3000}, {"model/g/aimed-at-position", 3000}, {"model/p/", 8000}, {"model/b/", 8000}, {"mode/ToNegativeInf", 10000}},
+		LevelText:   "Runtime differential monitoring of formatting against strconv and fmt themselves on float64-representable values, plus a strconv-validated layout model for arbitrary Decimals in all six modes.",
+		Technique:   "runtime differential monitoring vs strconv/fmt; strconv-validated layout model + exact rounding oracle",
+		DesignRef:   "DESIGN.md §4 C13",
+	},
+	"C11": {
+		Rule: "Values (1..3 000 digits incl. interior and trailing zero words, exponents from MinExp to MaxExp, both signs, zeros, infinities) built through five routes (raw words with extra low zero words, parser, arithmetic, reused longer buffer, plain) are printed with Text/Append in e, E, f (|exponent| < 5 000), g, G, p at precision -1, with b, MarshalText and json.Marshal; the text must (1) carry exactly the oracle's significant digits, MinPrec of them (first through last non-zero digit of the mantissa part; not for b/JSON), (2) parse back (Parse base 10 / SetString / UnmarshalText / json.Unmarshal) into receivers of precision max(1,MinPrec), +1 and +40, any mode, dirty or fresh, to exactly x's value and sign incl. -0 and +-Inf, comparing equal to x. x unchanged. Non-trivial = finite values.",
+		Assumptions: []string{"'f' output is generated only for |exponent| < 5 000 (it materialises the exponent)"},
+		Floors:      []floor{{"format/e/finite", 8000}, {"format/f/finite", 5000}, {"format/g/finite", 8000}, {"format/p/finite", 8000}, {"format/b/finite", 8000}, {"format/JSON/finite", 8000}, {"format/MarshalText/finite", 8000}, {"round_trips", 250000}, {"route/low-zero-words", 10000}},
+		LevelText:   "Runtime round-trip monitoring (metamorphic): print, check the digits against the exact value, parse back at three precisions.",
+		Technique:   "runtime metamorphic monitoring: print/parse round trip with digit-level comparison against the exact value",
+		DesignRef:   "DESIGN.md §4 C11",
+	},
 }
 
 func writeManifest() {
